@@ -854,6 +854,10 @@ Varable failures: {var_failed}
             # lower edges plus the last upper edge: one more than layers
             outf.VGLVLS = np.append(
                 nlayb[:, 0], nlayb[-1:, 1]).view(np.ndarray)
+        if 'TSTEP' in kwds:
+            # time flags are not data: YYYYJJJ/HHMMSS cannot be averaged or
+            # differenced. Rebuild them from SDATE, STIME and TSTEP.
+            outf.updatetflag(overwrite=True)
         outf.updatemeta()
         return outf
 
